@@ -31,7 +31,7 @@ ASSUMPTIONS = [
 ]
 ANCHORS = ["dagrt.codegen.dag_ast:create_ast_from_phase", "dagrt.codegen.dag_ast:loop_to_ast_node",
            "dagrt.codegen.dag_ast:conditional_to_ast", "dagrt.codegen.codegen_base:StructuredCodeGenerator.lower_node"]
-MIN_NONTRIVIAL = {"quick": 4000, "thorough": 50000}
+MIN_NONTRIVIAL = {"quick": 4000, "thorough": 280000}
 REQUIRED_COUNTERS = {"quick": ["phases_lowered", "phase_x_valuation_walks", "presentations_compared",
                                "lower_node_streams_checked", "hashseed_trees_compared"],
                      "thorough": ["phases_lowered", "phase_x_valuation_walks", "presentations_compared",
@@ -47,7 +47,7 @@ def _last_json(stdout):
 
 
 def plan(tier, seed):
-    per = 500 if tier == "quick" else 6000
+    per = 500 if tier == "quick" else 48000
     return [{"seed": f"C05:{seed}:{k}", "count": per, "hashseeds": [1, 2] if tier == "quick" else [1, 2, 3, 4]}
             for k in range(16)]
 
